@@ -142,22 +142,24 @@ def lammps_cases(j, wd, quick):
             for xyz in sets:
                 vel = xyz[::-1] * 0.5
                 id_type = np.array([[a + 1, 1 + a % 2] for a in range(n_atoms)])
-                box = np.array([[0.0, 30.0], [-1.5, 8.25], [2.0, 9999.5]])
-                f = os.path.join(wd, "c.lammpstrj")
-                perm = list(order)
-                lm.write_lammpstrj(f, id_type[perm], xyz[perm], vel[perm], box)
-                j.n += 1
-                it, x2, v2, b2 = lm.read_lammpstrj(f, 0, n_atoms)
-                j.ctx.distinct(("lammps", n_atoms, order))
-                if not j.close(x2, xyz, 1e-12) or not j.close(v2, vel, 1e-12) or not j.close(b2, box, 1e-12) or not j.close(it, id_type, 0):
-                    j.fail("lammpstrj:roundtrip", f"n={n_atoms} id order {order}: data differ after write+read (ids must be sorted on reading)")
-                if n_atoms == eng.n_atoms:
-                    o = os.path.join(wd, "r.lammpstrj")
-                    eng._reverse_velocities(f, o)
+                # orthogonal box (lo hi) and triclinic box (lo_bound hi_bound tilt)
+                for box in (np.array([[0.0, 30.0], [-1.5, 8.25], [2.0, 9999.5]]),
+                            np.array([[-0.75, 12.5, 1.5], [0.0, 8.25, -0.5], [2.0, 9.5, 0.25]])):
+                    f = os.path.join(wd, "c.lammpstrj")
+                    perm = list(order)
+                    lm.write_lammpstrj(f, id_type[perm], xyz[perm], vel[perm], box)
                     j.n += 1
-                    it3, x3, v3, b3 = lm.read_lammpstrj(o, 0, n_atoms)
-                    if not j.close(v3, -vel, 1e-12) or not j.close(x3, xyz, 1e-12) or not j.close(b3, box, 1e-12) or not j.close(it3, id_type, 0):
-                        j.fail("lammpstrj:reverse-velocities", "reversal changed more than the sign of the velocities")
+                    it, x2, v2, b2 = lm.read_lammpstrj(f, 0, n_atoms)
+                    j.ctx.distinct(("lammps", n_atoms, order, box.shape))
+                    if not j.close(x2, xyz, 1e-12) or not j.close(v2, vel, 1e-12) or not j.close(b2, box, 1e-12) or not j.close(it, id_type, 0):
+                        j.fail("lammpstrj:roundtrip", f"n={n_atoms} id order {order} box {box.shape}: data differ after write+read (ids must be sorted on reading)")
+                    if n_atoms == eng.n_atoms:
+                        o = os.path.join(wd, "r.lammpstrj")
+                        eng._reverse_velocities(f, o)
+                        j.n += 1
+                        it3, x3, v3, b3 = lm.read_lammpstrj(o, 0, n_atoms)
+                        if not j.close(v3, -vel, 1e-12) or not j.close(x3, xyz, 1e-12) or not j.close(b3, box, 1e-12) or not j.close(it3, id_type, 0):
+                            j.fail("lammpstrj:reverse-velocities", "reversal changed more than the sign of the velocities")
         if n_atoms == eng.n_atoms:
             f = os.path.join(wd, "multi.lammpstrj")
             if os.path.exists(f):
